@@ -167,7 +167,7 @@ def obs_roundtrips(rng):
 
     def nums(limit, n=None):
         n = rng.randrange(0, 40) if n is None else n
-        pools = [1, 2, 255, 256, 65535, 65536, 2 ** 28 - 1, 2 ** 28, 2 ** 31 - 1, 2 ** 32 - 1, 2 ** 40, 2 ** 63 - 1]
+        pools = [1, 2, 255, 256, 65535, 65536, 2 ** 28 - 1, 2 ** 28, 2 ** 31 - 1, 2 ** 31, 2 ** 32 - 1, 2 ** 32, 2 ** 40, 2 ** 63 - 1]
         return [min(limit, rng.choice([rng.randrange(0, 4), rng.randrange(0, 300), rng.choice(pools)]))
                 for _ in range(n)]
 
@@ -240,6 +240,26 @@ def obs_roundtrips(rng):
                  "input": [str(v) for v in vals], "output": [str(int(x)) for x in back]}]
     g = guard(growable, "growable")
     out += g if isinstance(g, list) else [g]
+
+    def growable_edges():
+        # the first number that does not fit the current array type is exactly a power of two (or one less)
+        res = []
+        for init in ("B", "H", "i"):
+            for b in (2 ** 8 - 1, 2 ** 8, 2 ** 16 - 1, 2 ** 16, 2 ** 31 - 1, 2 ** 31, 2 ** 32 - 1, 2 ** 32):
+                for how in ("append", "extend"):
+                    ga = GrowableArray(inittype=init)
+                    vals = [3, 1, b, 2]
+                    if how == "append":
+                        for v in vals:
+                            ga.append(v)
+                    else:
+                        ga.extend(vals)
+                    res.append({"kind": "roundtrip", "what": "GrowableArray(%s) %s up to %d" % (init, how, b),
+                                "input": [str(v) for v in vals], "output": [str(int(x)) for x in ga]})
+        return res
+    if rng.random() < 0.34:
+        g = guard(growable_edges, "growable edges")
+        out += g if isinstance(g, list) else [g]
 
     def base85():
         from whoosh.support import base85 as b85
